@@ -104,6 +104,26 @@ def check_map(spec, res, runner_name, error_handling):
         res.fail(kind="oracle", function="map template events", what=pb, runner=runner_name, replay=rep)
 
 
+def check_map_rejected(res, runner_name):
+    """A map call whose inputs are incomplete is a rejected call: nothing may be emitted (known finding F9 on this tree)."""
+    set_case("C12", {"spec": {"rejected_map": True}, "variant": {"map": True, "error_handling": "raise"}}, runner_name)
+    f = make_function("f", ["x", "y"], {}, ["return (x, y)"], {})
+    g = Graph([FunctionNode(f, name="f", output_name="r")], name="item")
+    rec = Recorder()
+    runner = SyncRunner() if runner_name == "sync" else AsyncRunner()
+    try:
+        r = runner.map(g, {"x": [1, 2]}, map_over="x", event_processors=[rec])
+        if runner_name == "async":
+            asyncio.run(r)
+        raised = None
+    except Exception as e:  # noqa: BLE001
+        raised = type(e).__name__
+    res.case(repr(("rejected_map", runner_name)), nontrivial=True)
+    if raised == "MissingInputError" and (rec.events or rec.shutdowns):
+        res.fail(kind="oracle", function="map template", finding_sig="F9", what=f"map() rejected with MissingInputError still emitted {len(rec.events)} events and {rec.shutdowns} shutdown(s) ({runner_name})",
+                 runner=runner_name, replay={"harness": "C12", "spec": {"spec": {"rejected_map": True}, "variant": {"map": True, "error_handling": "raise"}}, "runner": runner_name})
+
+
 def gen(rng):
     fam = rng.choice(["dag", "dag", "nest", "gated", "loop", "siblings"])
     if fam == "dag":
@@ -133,12 +153,17 @@ def run(tier, seed, functions):
         for eh in ("raise", "continue"):
             for r, mc in (("sync", None), ("async", None), ("async", 2)):
                 check_map({"items": items, "mc": mc}, res, r, eh)
+    check_map_rejected(res, "sync")
+    check_map_rejected(res, "async")
     return res
 
 
 def replay(rep):
     res = Result("C12", "", {})
     sp = rep["spec"]
+    if sp["spec"].get("rejected_map"):
+        check_map_rejected(res, rep["runner"])
+        return [f["what"] for f in res.failures if not f.get("finding_sig")]
     if sp["variant"].get("map"):
         check_map(sp["spec"], res, rep["runner"], sp["variant"]["error_handling"])
     else:
